@@ -189,7 +189,46 @@ def snip_misc(rng, uid):
             " ".join(f"\"{n}\" {n}" for n in names) + "}\n(del " + " ".join(names) + f")\nf\"{{{names[0] if False else 1} !r:>5}}\"\n"), len(names)
 
 
-SNIPS = [snip_nonlocal, snip_nonlocal, snip_nonlocal, snip_global, snip_comp, snip_comp, snip_let, snip_match, snip_call,
+def snip_local_macros(rng, uid):
+    # several local macros in scope, handed on with (local-macros); get-macro of each
+    names = pick(rng, 2, 5, ["ma", "mb", "m-c", "md?", "me", "zz", "a1"])
+    defs = " ".join(f"(defmacro {n} [] {i})" for i, n in enumerate(names))
+    inner = ""
+    if rng.random() < 0.5:
+        more = pick(rng, 1, 3, ["in1", "in2", "in-3"])
+        inner = "(defn nested [] " + " ".join(f"(defmacro {n} [] 9)" for n in more) + " (hy.eval '(+ 1 1) :macros (local-macros))) "
+    return (f"(defn lm{uid} []\n  {defs}\n  {inner}(hy.eval '({names[0]}) :macros (local-macros))\n  [" +
+            " ".join(f"(get-macro {n})" for n in names) + "])\n"), len(names)
+
+
+def snip_quote(rng, uid):
+    # quoted / quasiquoted models of every kind, with their extra attributes (f-string conversions, specs, brackets)
+    names = pick(rng, 2, 4)
+    a, b = names[0], names[1]
+    parts = [f'f"{{{a} !r:>5}} {{{b} =}} {{{a} !s}} {{(+ {a} 1) :^{{{b}}}}}"', f'#[f[{{{a} !a}} t]f]', f"#{{1 2 {a} :kw}}", f"{{:k {a} \"s\" [{b}]}}",
+             f"#({a} {b} #* {a})", f"(f :x {a} #** {b})", f'#[d[{a}]d]', 'b"bytes"', "1.5", "2j", f"'{a}", f"`(~{a} ~@{b})"]
+    chosen = rng.sample(parts, rng.randint(3, len(parts)))
+    q = rng.choice(["'", "`"])
+    src = f"(setv q{uid} {q}(" + " ".join(chosen) + "))\n"
+    if rng.random() < 0.5:
+        src += f"(defmacro qm{uid} [{a} {b}] `(do (setv tmp{uid} [~{a} ~@{b}]) f\"{{~{a} !r}}\" tmp{uid}))\n(qm{uid} 1 [2 3])\n"
+    return src, len(chosen)
+
+
+def snip_defs(rng, uid):
+    # decorators, annotations, type parameters, keyword-only / positional-only parameters, async, star imports
+    names = pick(rng, 3, 6)
+    a, b, c = names[0], names[1], names[2]
+    ann = " ".join(f"#^ int {n}" for n in names[:3])
+    src = (f"(defn [staticmethod (fn [f] f)] #^ int dec{uid} [{a} / {b} * {c}] (annotate q{uid} int) [{a} {b} {c}])\n"
+           f"(defn :async as{uid} [{ann}] (for [:async it (ag)] (setv {a} it)) (with [:async cm (acm) o (sm)] (await (f {b}))) {c})\n"
+           f"(defclass :tp [T U] Gen{uid} [] (setv #^ T {a} None) (defn :tp [V] meth [self #^ V {b}] {b}))\n"
+           f"(deftype :tp [K] Alias{uid} (get dict #(K int)))\n"
+           f"(export :objects [{a} {b}] :macros [])\n")
+    return src, len(names)
+
+
+SNIPS = [snip_local_macros, snip_quote, snip_quote, snip_defs, snip_nonlocal, snip_nonlocal, snip_nonlocal, snip_global, snip_comp, snip_comp, snip_let, snip_match, snip_call,
          snip_class, snip_import, snip_local_require, snip_trywith, snip_closure, snip_misc]
 
 
